@@ -37,12 +37,17 @@ struct Pb {
     /// Some = replay exactly this schedule once
     fixed: Option<Vec<usize>>,
     pub capped: Arc<Mutex<bool>>,
+    /// choices forced for the first steps (parallel exploration: this explorer owns the subtree below the prefix)
+    prefix: Vec<usize>,
+    /// Some(d) = discovery mode: branch only on the first d decisions, take choice 0 afterwards
+    discover: Option<usize>,
+    stop_all: Arc<std::sync::atomic::AtomicBool>,
 }
 
 impl Scheduler for Pb {
     fn new_execution(&mut self) -> Option<Schedule> {
         let mut sh = self.shared.lock().unwrap();
-        if sh.stop {
+        if sh.stop || self.stop_all.load(std::sync::atomic::Ordering::Relaxed) {
             return None;
         }
         if self.started {
@@ -97,8 +102,20 @@ impl Scheduler for Pb {
                 }
                 None => 0,
             }
-        } else if self.step < self.levels.len() {
-            self.levels[self.step].0.min(n_allowed - 1)
+        } else if self.step < self.prefix.len() {
+            // forced prefix: the discovery pass saw exactly this choice as allowed
+            let c = self.prefix[self.step];
+            if c >= n_allowed {
+                self.shared.lock().unwrap().diverged =
+                    Some(format!("prefix diverged at step {}: choice {c} but only {n_allowed} allowed", self.step));
+                0
+            } else {
+                c
+            }
+        } else if self.discover.map_or(false, |d| self.step >= d) {
+            0
+        } else if self.step - self.prefix.len() < self.levels.len() {
+            self.levels[self.step - self.prefix.len()].0.min(n_allowed - 1)
         } else {
             self.levels.push((0, n_allowed));
             0
@@ -160,6 +177,22 @@ pub fn explore<F>(bound: usize, max_execs: u64, deadline: Instant, fixed: Option
 where
     F: Fn() -> Result<String, String> + Send + Sync + 'static,
 {
+    explore_with(bound, max_execs, deadline, fixed, ExploreOpts::default(), body)
+}
+
+#[derive(Clone, Default)]
+pub struct ExploreOpts {
+    pub prefix: Vec<usize>,
+    pub discover: Option<usize>,
+    pub stop_all: Arc<std::sync::atomic::AtomicBool>,
+    /// called after every completed execution with its choice list (used by the discovery pass)
+    pub on_execution: Option<Arc<dyn Fn(&[usize]) + Send + Sync>>,
+}
+
+pub fn explore_with<F>(bound: usize, max_execs: u64, deadline: Instant, fixed: Option<Vec<usize>>, opts: ExploreOpts, body: F) -> Explored
+where
+    F: Fn() -> Result<String, String> + Send + Sync + 'static,
+{
     let shared = Arc::new(Mutex::new(Shared::default()));
     let capped = Arc::new(Mutex::new(false));
     let outcomes = Arc::new(Mutex::new(BTreeMap::<String, u64>::new()));
@@ -175,13 +208,21 @@ where
         deadline,
         fixed,
         capped: capped.clone(),
+        prefix: opts.prefix.clone(),
+        discover: opts.discover,
+        stop_all: opts.stop_all.clone(),
     };
+    let on_execution = opts.on_execution.clone();
     let runner = shuttle::Runner::new(pb, config());
     let (sh2, out2, fail2) = (shared.clone(), outcomes.clone(), failure.clone());
     let res = vkit::catch(move || {
         runner.run(move || match body() {
             Ok(class) => {
                 *out2.lock().unwrap().entry(class).or_default() += 1;
+                if let Some(cb) = &on_execution {
+                    let cur = sh2.lock().unwrap().current.clone();
+                    cb(&cur);
+                }
             }
             Err(v) => {
                 let mut sh = sh2.lock().unwrap();
@@ -212,4 +253,73 @@ where
     let complete = !*capped.lock().unwrap() && failure.is_none();
     let outcomes = outcomes.lock().unwrap().clone();
     Explored { bound, executions: sh.executions, decisions: sh.decisions, max_steps: sh.max_steps, complete, outcomes, failure }
+}
+
+
+/// Parallel exploration: a sequential discovery pass enumerates all distinct schedule prefixes of `split_depth` decisions
+/// (branching only there), then the subtree below each prefix is explored by a worker of its own. `make_body(worker)` builds
+/// the body for one worker (bodies that use the file system need a private directory each). The union of the subtrees is
+/// exactly the sequential search space; executions are counted in the subtree pass only.
+pub fn explore_parallel<M, F>(bound: usize, workers: usize, split_depth: usize, deadline: Instant, make_body: M) -> Explored
+where
+    M: Fn(usize) -> F + Sync,
+    F: Fn() -> Result<String, String> + Send + Sync + 'static,
+{
+    let prefixes = Arc::new(Mutex::new(std::collections::BTreeSet::<Vec<usize>>::new()));
+    let p2 = prefixes.clone();
+    let opts = ExploreOpts {
+        discover: Some(split_depth),
+        on_execution: Some(Arc::new(move |cur: &[usize]| {
+            p2.lock().unwrap().insert(cur[..cur.len().min(split_depth)].to_vec());
+        })),
+        ..Default::default()
+    };
+    let disc = explore_with(bound, u64::MAX, deadline, None, opts, make_body(0));
+    if disc.failure.is_some() || !disc.complete {
+        return disc;
+    }
+    let prefixes: Vec<Vec<usize>> = prefixes.lock().unwrap().iter().cloned().collect();
+    let next = std::sync::atomic::AtomicUsize::new(0);
+    let stop_all = Arc::new(std::sync::atomic::AtomicBool::new(false));
+    let results: Mutex<Vec<(usize, Explored)>> = Mutex::new(Vec::new());
+    std::thread::scope(|s| {
+        for w in 0..workers.max(1) {
+            let (prefixes, next, stop_all, results, make_body) = (&prefixes, &next, &stop_all, &results, &make_body);
+            s.spawn(move || {
+                let body = Arc::new(make_body(w + 1));
+                loop {
+                    let i = next.fetch_add(1, std::sync::atomic::Ordering::SeqCst);
+                    if i >= prefixes.len() || stop_all.load(std::sync::atomic::Ordering::Relaxed) {
+                        break;
+                    }
+                    let opts = ExploreOpts { prefix: prefixes[i].clone(), stop_all: stop_all.clone(), ..Default::default() };
+                    let b = body.clone();
+                    let ex = explore_with(bound, u64::MAX, deadline, None, opts, move || b());
+                    if ex.failure.is_some() {
+                        stop_all.store(true, std::sync::atomic::Ordering::Relaxed);
+                    }
+                    results.lock().unwrap().push((i, ex));
+                }
+            });
+        }
+    });
+    let mut results = results.into_inner().unwrap();
+    results.sort_by_key(|(i, _)| *i);
+    let mut total = Explored { bound, executions: 0, decisions: 0, max_steps: 0, complete: results.len() == prefixes.len(), outcomes: BTreeMap::new(), failure: None };
+    for (_, ex) in results {
+        total.executions += ex.executions;
+        total.decisions += ex.decisions;
+        total.max_steps = total.max_steps.max(ex.max_steps);
+        total.complete &= ex.complete || ex.failure.is_some();
+        for (k, v) in ex.outcomes {
+            *total.outcomes.entry(k).or_default() += v;
+        }
+        if total.failure.is_none() {
+            total.failure = ex.failure;
+        }
+    }
+    if total.failure.is_some() {
+        total.complete = false;
+    }
+    total
 }
